@@ -143,7 +143,7 @@ def main(argv):
                 hit = k
         (known_hit if hit else new_viol).append((o, hit))
 
-    ev_dir = os.path.join(VERIF, "evidence")
+    ev_dir = os.environ.get("VERIF_EVIDENCE_DIR") or os.path.join(VERIF, "evidence")
     os.makedirs(os.path.join(ev_dir, "violations"), exist_ok=True)
     # clear stale violation files of this property
     for f in os.listdir(os.path.join(ev_dir, "violations")):
